@@ -23,11 +23,11 @@ def parse(out):
     return total, bad
 
 
-def judge_file(ctx, specdir, module, cfg, path, name, timeout=1800, extra_files=None, heap=None):
+def judge_file(ctx, specdir, module, cfg, path, name, timeout=1800, extra_files=None, heap=None, deps=None):
     """Run the oracle on one ndjson file.  Returns (total, bad_indices_1based, tlc_result)."""
     files = dict(extra_files or {})
     r = tlc.run(ctx, specdir, module, cfg=cfg, workers=1, timeout=timeout,
-                extra_files=dict(files, **{"recs.ndjson": open(path, "rb").read()}), name=name, heap=heap)
+                extra_files=dict(files, **{"recs.ndjson": open(path, "rb").read()}), name=name, heap=heap, deps=deps)
     p = parse(r.out)
     if p is None or not r.success:
         raise Inconclusive("oracle %s/%s failed on %s:\n%s" % (specdir, module, os.path.basename(path),
@@ -40,13 +40,13 @@ def judge_file(ctx, specdir, module, cfg, path, name, timeout=1800, extra_files=
     return p[0], p[1], r
 
 
-def judge(ctx, specdir, module, cfg, paths, par=8, timeout=1800, extra_files=None, heap=None, name="oracle"):
+def judge(ctx, specdir, module, cfg, paths, par=8, timeout=1800, extra_files=None, heap=None, name="oracle", deps=None):
     """Judge many shard files in parallel.  Returns dict(total, bad=[(path, idx1, record)], states, generated)."""
     res = {"total": 0, "bad": [], "states": 0, "generated": 0, "files": len(paths)}
 
     def one(ip):
         i, p = ip
-        return p, judge_file(ctx, specdir, module, cfg, p, "%s-%d" % (name, i), timeout, extra_files, heap)
+        return p, judge_file(ctx, specdir, module, cfg, p, "%s-%d" % (name, i), timeout, extra_files, heap, deps)
 
     with ThreadPoolExecutor(max_workers=par) as ex:
         for p, (total, bad, r) in ex.map(one, list(enumerate(paths))):
@@ -62,7 +62,7 @@ def judge(ctx, specdir, module, cfg, paths, par=8, timeout=1800, extra_files=Non
     return res
 
 
-def selftest(ctx, specdir, module, cfg, records, mutate, name="oracle-selftest", extra_files=None):
+def selftest(ctx, specdir, module, cfg, records, mutate, name="oracle-selftest", extra_files=None, deps=None):
     """records: list of dict; mutate(i, rec) -> corrupted rec or None.  Every corrupted record (and only those)
     must be rejected.  Returns dict for the evidence; raises Inconclusive when the oracle is blind."""
     recs = [json.loads(json.dumps(r)) for r in records]
@@ -78,7 +78,7 @@ def selftest(ctx, specdir, module, cfg, records, mutate, name="oracle-selftest",
     with open(path, "w") as f:
         for r in recs:
             f.write(json.dumps(r) + "\n")
-    total, bad, _ = judge_file(ctx, specdir, module, cfg, path, name, extra_files=extra_files)
+    total, bad, _ = judge_file(ctx, specdir, module, cfg, path, name, extra_files=extra_files, deps=deps)
     if sorted(bad) != sorted(corrupted):
         raise Inconclusive("oracle self-test failed: corrupted records %s, rejected %s" % (corrupted, bad))
     return {"records": total, "corrupted": len(corrupted), "rejected_exactly_those": True}
